@@ -595,24 +595,38 @@ theorem has_mono (fs fs' : Fs) (d : Path) (n : Name) (hm : ∀ e ∈ fs, e ∈ f
   obtain ⟨e, he, hp⟩ := h
   exact ⟨e, hm e he, hp⟩
 
-/-- every download that holds a path holds a regular path that exists in the directory, and no two
-of them hold the same one -/
+/-- every download that holds a path holds a regular path; unless the user has moved its file away (`gone`) the path
+exists in the directory, and no two of those hold the same one -/
 def SysInv (s : Sys) : Prop :=
-  (∀ a ∈ s.dls, Regular a.name ∧ (∀ c ∈ a.dir, Regular c) ∧ s.fs.has a.dir a.name = true) ∧
-  s.dls.Pairwise (fun a b => (a.dir, a.name) ≠ (b.dir, b.name))
+  (∀ a ∈ s.dls, Regular a.name ∧ (∀ c ∈ a.dir, Regular c) ∧ (a.status ≠ .gone → s.fs.has a.dir a.name = true)) ∧
+  s.dls.Pairwise (fun a b => a.status ≠ .gone → b.status ≠ .gone → (a.dir, a.name) ≠ (b.dir, b.name))
 
-theorem setStatus_inv (fs : Fs) (dls : List Dl) (id : Nat) (o n : Status) (h : SysInv ⟨fs, dls⟩) :
+theorem setStatus_inv (fs : Fs) (dls : List Dl) (id : Nat) (o n : Status) (ho : o ≠ .gone) (h : SysInv ⟨fs, dls⟩) :
     SysInv ⟨fs, setStatus id o n dls⟩ := by
   refine ⟨?_, ?_⟩
   · intro a ha
     simp only [setStatus, List.mem_map] at ha
     obtain ⟨b, hb, rfl⟩ := ha
     have := h.1 b hb
-    split <;> exact this
+    split
+    · rename_i hc
+      simp only [Bool.and_eq_true, beq_iff_eq] at hc
+      exact ⟨this.1, this.2.1, fun _ => this.2.2 (by rw [hc.2]; exact ho)⟩
+    · exact this
   · unfold setStatus
     apply List.Pairwise.map _ _ h.2
     intro a b hab
-    split <;> split <;> exact hab
+    have key : ∀ x : Dl, (if x.id == id && x.status == o then { x with status := n } else x).status ≠ .gone →
+        x.status ≠ .gone := by
+      intro x hx
+      split at hx
+      · rename_i hc
+        simp only [Bool.and_eq_true, beq_iff_eq] at hc
+        rw [hc.2]; exact ho
+      · exact hx
+    intro h1 h2
+    have := hab (key a h1) (key b h2)
+    split <;> split <;> exact this
 
 theorem choose_inv (ss : List Strategy) (hl : ss.getLast? = some .number) (fs : Fs) (rest : List Dl)
     (id : Nat) (remote : List Char) (fault : Fault) (hinv : SysInv ⟨fs, rest⟩) :
@@ -632,7 +646,7 @@ theorem choose_inv (ss : List Strategy) (hl : ss.getLast? = some .number) (fs : 
       refine ⟨?_, hinv.2⟩
       intro a ha
       have := hinv.1 a ha
-      exact ⟨this.1, this.2.1, has_mono fs fs' _ _ hm this.2.2⟩
+      exact ⟨this.1, this.2.1, fun hg => has_mono fs fs' _ _ hm (this.2.2 hg)⟩
     · rename_i fs' heq
       have hm : ∀ e ∈ fs, e ∈ fs' := by intro e he; have := hmono e he; rw [heq] at this; exact this
       have hhas : fs'.has d n = true := by
@@ -642,19 +656,95 @@ theorem choose_inv (ss : List Strategy) (hl : ss.getLast? = some .number) (fs : 
       · intro a ha
         simp only [List.mem_cons] at ha
         rcases ha with rfl | ha
-        · exact ⟨hreg, hdreg, hhas⟩
+        · exact ⟨hreg, hdreg, fun _ => hhas⟩
         · have := hinv.1 a ha
-          exact ⟨this.1, this.2.1, has_mono fs fs' _ _ hm this.2.2⟩
+          exact ⟨this.1, this.2.1, fun hg => has_mono fs fs' _ _ hm (this.2.2 hg)⟩
       · simp only [List.pairwise_cons]
         refine ⟨?_, hinv.2⟩
-        intro a ha heq2
-        have h2 := (hinv.1 a ha).2.2
+        intro a ha _ hg heq2
+        have h2 := (hinv.1 a ha).2.2 hg
         simp only [Prod.mk.injEq] at heq2
         rw [← heq2.1, ← heq2.2, hfresh] at h2
         cases h2
 
 theorem drop_inv (s : Sys) (id : Nat) (h : SysInv s) : SysInv ⟨s.fs, s.drop id⟩ :=
   ⟨fun a ha => h.1 a (List.mem_filter.mp ha).1, h.2.sublist List.filter_sublist⟩
+
+/-- a symmetric relation that holds pairwise holds between any two different members -/
+theorem pairwise_mem {α : Type} {R : α → α → Prop} (hsym : ∀ a b, R a b → R b a) :
+    ∀ (l : List α), l.Pairwise R → ∀ a ∈ l, ∀ b ∈ l, a ≠ b → R a b := by
+  intro l
+  induction l with
+  | nil => intro _ a ha; cases ha
+  | cons x xs ih =>
+    intro hp a ha b hb hne
+    rw [List.pairwise_cons] at hp
+    simp only [List.mem_cons] at ha hb
+    rcases ha with rfl | ha <;> rcases hb with rfl | hb
+    · exact absurd rfl hne
+    · exact hp.1 b hb
+    · exact hsym _ _ (hp.1 a ha)
+    · exact ih hp.2 a ha b hb hne
+
+/-- removing the entries called `(d, n)` leaves every other name where it was -/
+theorem has_filter_ne (fs : Fs) (d d' : Path) (n n' : Name) (hne : (d', n') ≠ (d, n)) (h : fs.has d' n' = true) :
+    Fs.has (fs.filter (fun e => !(e.dir == d && e.name == n))) d' n' = true := by
+  unfold Fs.has at *
+  rw [List.any_eq_true] at *
+  obtain ⟨e, he, hq⟩ := h
+  refine ⟨e, ?_, hq⟩
+  rw [List.mem_filter]
+  refine ⟨he, ?_⟩
+  simp only [Bool.and_eq_true, beq_iff_eq] at hq
+  simp only [Bool.not_eq_eq_eq_not, Bool.not_true, Bool.and_eq_false_iff, beq_eq_false_iff_ne, ne_eq]
+  by_cases hd : e.dir = d
+  · right
+    intro hn
+    apply hne
+    rw [← hq.1, ← hq.2, hd, hn]
+  · left; exact hd
+
+theorem remove_inv (s : Sys) (id : Nat) (a : Dl) (hf : s.find id = some a) (hc : a.status = .complete)
+    (h : SysInv s) :
+    SysInv ⟨s.fs.filter (fun e => !(e.dir == a.dir && e.name == a.name)), setStatus id .complete .gone s.dls⟩ := by
+  have hmem : a ∈ s.dls := List.mem_of_find?_eq_some hf
+  have hid : a.id = id := by
+    have := List.find?_some hf
+    simpa using this
+  have hsym : ∀ x y : Dl, (x.status ≠ .gone → y.status ≠ .gone → (x.dir, x.name) ≠ (y.dir, y.name)) →
+      (y.status ≠ .gone → x.status ≠ .gone → (y.dir, y.name) ≠ (x.dir, x.name)) :=
+    fun x y hxy hy hx heq => hxy hx hy heq.symm
+  refine ⟨?_, ?_⟩
+  · intro b hb
+    simp only [setStatus, List.mem_map] at hb
+    obtain ⟨c, hcm, rfl⟩ := hb
+    have hcinv := h.1 c hcm
+    split
+    · exact ⟨hcinv.1, hcinv.2.1, fun hg => absurd rfl hg⟩
+    · rename_i hnc
+      refine ⟨hcinv.1, hcinv.2.1, fun hg => ?_⟩
+      have hca : c ≠ a := by
+        intro heq
+        apply hnc
+        rw [heq, hid, hc]
+        simp
+      have hdiff := pairwise_mem hsym s.dls h.2 c hcm a hmem hca hg (by rw [hc]; decide)
+      exact has_filter_ne s.fs a.dir c.dir a.name c.name hdiff (hcinv.2.2 hg)
+  · unfold setStatus
+    apply List.Pairwise.map _ _ h.2
+    intro x y hxy h1 h2
+    have key : ∀ z : Dl, (if z.id == id && z.status == Status.complete then { z with status := Status.gone } else z).status
+        ≠ .gone → z.status ≠ .gone ∧
+        (if z.id == id && z.status == Status.complete then { z with status := Status.gone } else z) = z := by
+      intro z hz
+      split at hz
+      · exact absurd rfl hz
+      · rename_i hn
+        exact ⟨hz, by rw [if_neg hn]⟩
+    obtain ⟨hx, ex⟩ := key x h1
+    obtain ⟨hy, ey⟩ := key y h2
+    rw [ex, ey]
+    exact hxy hx hy
 
 theorem step_inv (ss : List Strategy) (hl : ss.getLast? = some .number) (s : Sys) (op : Op)
     (hinv : SysInv s) : SysInv (step ss s op).1 := by
@@ -664,11 +754,30 @@ theorem step_inv (ss : List Strategy) (hl : ss.getLast? = some .number) (s : Sys
     split
     · split
       · exact hinv
-      · exact setStatus_inv s.fs s.dls id _ _ hinv
+      · exact setStatus_inv s.fs s.dls id _ _ (by decide) hinv
+      · exact choose_inv ss hl s.fs (s.drop id) id remote fault (drop_inv s id hinv)
       · exact choose_inv ss hl s.fs (s.drop id) id remote fault (drop_inv s id hinv)
     · exact choose_inv ss hl s.fs s.dls id remote fault hinv
-  | finish id => exact setStatus_inv s.fs s.dls id _ _ hinv
-  | cut id => exact setStatus_inv s.fs s.dls id _ _ hinv
+  | finish id => exact setStatus_inv s.fs s.dls id _ _ (by decide) hinv
+  | cut id => exact setStatus_inv s.fs s.dls id _ _ (by decide) hinv
+  | remove id =>
+    simp only [step]
+    split
+    · rename_i a hf
+      split
+      · rename_i hc
+        split
+        · exact remove_inv s id a hf hc hinv
+        · exact hinv
+      · exact hinv
+    · exact hinv
+  | requeue id =>
+    simp only [step]
+    split
+    · split
+      · exact drop_inv s id hinv
+      · exact hinv
+    · exact hinv
 
 theorem run_inv (ss : List Strategy) (hl : ss.getLast? = some .number) (ops : List Op) :
     ∀ s, SysInv s → SysInv (run ss s ops) := by
